@@ -1942,19 +1942,21 @@ func genHistory(r *Rng, k int, distinct bool) []c13Ev {
 				reads++
 			}
 		}
-		ok := true
-		if distinct {
+		if distinct { // make the final sums pairwise distinct with one more sample where two coincide
 			seen := map[int64]bool{}
-			for _, t := range totals {
-				if seen[t] {
-					ok = false
+			for key, t := range totals {
+				inc := int64(0)
+				for seen[t+inc] {
+					inc++
 				}
-				seen[t] = true
+				if inc != 0 {
+					h = append(h, c13Ev{Key: key, Inc: inc})
+					totals[key] += inc
+				}
+				seen[totals[key]] = true
 			}
 		}
-		if ok {
-			return h
-		}
+		return h
 	}
 }
 
